@@ -141,11 +141,12 @@ def tokio_model_needed(crate):
     return crate in ("turmoil",) and (VERIF / "models" / "tokio").exists()
 
 
-def make_overlay(root: Path, crates_needed, use_real_indexmap=False):
+def make_overlay(root: Path, crates_needed, use_real_indexmap=False, tokio_model=False):
     """Copy crates from /repo working tree, attach harness modules, write workspace files."""
     if root.exists():
         shutil.rmtree(root)
     (root / "crates").mkdir(parents=True)
+    root.parent.mkdir(parents=True, exist_ok=True)
     for c in CRATES:
         subprocess.run(["rsync", "-a", "--exclude", "target", "--exclude", "tests", "--exclude", "examples",
                         str(REPO / "crates" / c), str(root / "crates")], check=True)
@@ -190,6 +191,8 @@ def make_overlay(root: Path, crates_needed, use_real_indexmap=False):
     patch.append('rand_distr = { path = "%s" }' % (VERIF / "models" / "rand_distr"))
     if (VERIF / "models" / "bytes").exists():
         patch.append('bytes = { path = "%s" }' % (VERIF / "models" / "bytes"))
+    if tokio_model:
+        patch.append('tokio = { path = "%s" }' % (VERIF / "models" / "tokio"))
     (root / "Cargo.toml").write_text(
         "[workspace]\nresolver = \"2\"\nmembers = [%s]\n[patch.crates-io]\n%s\n" % (members, "\n".join(patch)))
     (root / ".cargo").mkdir()
@@ -286,7 +289,7 @@ class Slot:
 
 def run_harness(h, overlay: Path, target: Path, logdir: Path, timeout_s, mem_gb, playback=False):
     """Run one cargo-kani process. Returns (result dict)."""
-    cr = overlay / "crates" / h["crate"]
+    cr = Path(h.get("overlay", str(overlay))) / "crates" / h["crate"]
     cmd = ["cargo", "kani", "-Z", "stubbing", "--harness", h["full"], "--exact",
            "--target-dir", str(target)]
     if h["features"]:
@@ -386,6 +389,7 @@ def extract_playback_test(text):
 
 def native_replay(h, overlay: Path, target: Path, logdir: Path, test_src: str, profile_release=False):
     """Insert the generated unit test into the overlay copy of the harness file and run it natively."""
+    overlay = Path(h.get("overlay", str(overlay)))
     hfile = overlay / "crates" / h["crate"] / "src" / ("verif_h_" + h["file"].replace("/", "_"))
     orig = hfile.read_text()
     m = re.search(r"fn (kani_concrete_playback_[A-Za-z0-9_]+)", test_src)
@@ -460,13 +464,20 @@ def main():
     logdir = VERIF / "logs" / pid
     logdir.mkdir(parents=True, exist_ok=True)
 
-    crates_needed = sorted(set(h["crate"] for h in hs))
-    # workspace members: needed crates + their path deps
-    members = set(crates_needed)
-    if "turmoil" in members or "turmoil-io-uring" in members:
-        members.update(["turmoil-fs", "turmoil-io-uring"])
+    # one overlay workspace per dependency regime: crates/turmoil is built against the tokio MODEL
+    # (DESIGN.md 2.7 rung 6), the other crates against the real tokio
+    groups = {}
+    for h in hs:
+        g = "core" if h["crate"] == "turmoil" else "leaf"
+        groups.setdefault(g, []).append(h)
+        h["overlay"] = str(overlay / g)
     try:
-        make_overlay(overlay, sorted(members), use_real_indexmap=args.real_indexmap)
+        for g, ghs in groups.items():
+            members = set(x["crate"] for x in ghs)
+            if g == "leaf" and "turmoil-io-uring" in members:
+                members.add("turmoil-fs")
+            make_overlay(overlay / g, sorted(members), use_real_indexmap=args.real_indexmap,
+                         tokio_model=(g == "core" and tokio_model_needed("turmoil")))
         results = run_all(hs, overlay, logdir, args)
         rc = report(pid, args, hs, results, overlay, logdir, seed, t_start)
     finally:
